@@ -43,8 +43,27 @@ Definition enc (v : obs Z) : list Z :=
   | VPanic k => [8; zn (panic_code k)]
   end.
 
+(* Indices travel as Z and may be as large as usize::MAX (2^64 - 1); converting such a number to the unary nat of
+   the model is not feasible, so an index is first brought into a small range: for Bounded every index beyond
+   max_len + 1 is replaced by max_len + 1, for Fixed an index is replaced by its remainder modulo the length.
+   Ring/RingRunNorm.v proves that the model cannot tell the difference (bnorm_sound, fnorm_sound). *)
+Definition bnorm (b : bounded Z) (o : zop) : zop :=
+  let c := fun i => Z.min i (zn (max_len b) + 1) in
+  match o with
+  | ZGet i => ZGet (c i) | ZSet i x => ZSet (c i) x | ZIdx i => ZIdx (c i) | ZIdxSet i x => ZIdxSet (c i) x
+  | _ => o
+  end.
+Definition fnorm (f : fixed Z) (o : zop) : zop :=
+  let c := fun i => if (flen f =? 0)%nat then 0 else i mod zn (flen f) in
+  match o with
+  | ZGet i => ZGet (c i) | ZSet i x => ZSet (c i) x | ZIdx i => ZIdx (c i) | ZIdxSet i x => ZIdxSet (c i) x
+  | ZSetFirst i => ZSetFirst (c i)
+  | _ => o
+  end.
+
 (* iter_mut on Bounded also reports the items in visit order (they equal iter) *)
-Definition bstep (b : bounded Z) (o : zop) : res (bounded Z * list Z) :=
+Definition bstep (b : bounded Z) (o0 : zop) : res (bounded Z * list Z) :=
+  let o := bnorm b o0 in
   match to_op o with
   | None => UB
   | Some p =>
@@ -74,7 +93,7 @@ Definition brun_case (s l : Z) (d : list Z) (ops : list zop) : list (list Z) :=
 Fixpoint frun_z (f : fixed Z) (ops : list zop) : list (list Z) :=
   match ops with
   | [] => []
-  | o :: t => match to_fop o with
+  | o :: t => match to_fop (fnorm f o) with
               | None => [[-2]]
               | Some p => match fstep f p with
                           | Ok (f', v) => enc v :: frun_z f' t
